@@ -2,7 +2,11 @@
 From Coq Require Extraction.
 From Coq Require Import ExtrOcamlBasic.
 From Coq Require Import NArith ZArith List.
-From PTQ Require Import Base.Bytes Base.Result Base.Bits Base.Sha256 Spec.Crc Model.Crc Model.Cell Spec.CellRepr Model.Inst Model.Builder Model.Typed Spec.TlbPrim Spec.TlbVal Model.Hashmap Spec.Hashmap Model.Address Model.Signatures Model.Adnl Model.Boc Spec.BocFormat Model.Proof Model.Dtree Gen.TlbImpl Model.Message Spec.MessageSpec Model.VmStack Model.Cost Model.Heap.
+From PTQ Require Import Base.Bytes Base.Result Base.Bits Base.Sha256 Spec.Crc Model.Crc Model.Cell Spec.CellRepr Model.Inst Model.Builder Model.Typed Spec.TlbPrim Spec.TlbVal Model.Hashmap Spec.Hashmap Model.Address Model.Signatures Model.Adnl Model.Boc Spec.BocFormat Model.Proof Model.Dtree Gen.TlbImpl GenCommitted.TlbImplRef Model.Message Spec.MessageSpec Model.VmStack Model.Cost Model.Heap Model.Tl Gen.TlSchemaTable.
+
+Definition boc_deserialize := PTQ.Model.Boc.deserialize.
+Definition tl_deserialize := PTQ.Model.Tl.deserialize.
+Definition tl_serialize := PTQ.Model.Tl.serialize.
 
 Extraction "Extract/model.ml"
   N.add N.mul N.of_nat N.to_nat Z.add Z.mul Z.opp Z.of_N Z.to_N
@@ -20,10 +24,11 @@ Extraction "Extract/model.ml"
   vdesc check_block_signatures node_id_short to_sign
   channel mk_channel cipher_params encrypt decrypt get_key_aes_id
   check_proof check_block_header_proof check_account_hashes
-  pv dtree run_type impl_table
+  pv dtree run_type impl_table ref_table
   msg_info state_init ser_message ser_info ser_state_init ser_currency ser_hash_update
   s_dec_message s_dec_state_init s_dec_currency s_dec_hash_update
   vmval vmcont ser_stack dec_stack
   order_visits
   op heap run_ops obj_view view
-  order to_boc deserialize deserialize_boc_header s_parse s_decode s_all_cells nodup_trees tree_eqb k_tree.
+  tv tl_ctor tl_serialize tl_deserialize tl_table block_id_to_bytes block_id_from_bytes
+  order to_boc boc_deserialize deserialize_boc_header s_parse s_decode s_all_cells nodup_trees tree_eqb k_tree.
